@@ -51,8 +51,33 @@ def concrete_run(contract, tier, limit=None, max_failures=12):
 from pyvc.replay import replay_contract_case   # noqa: E402,F401
 
 
+def lean_lemmas(ctx):
+    """thorough tier: re-check the integer-theory lemmas behind the ground axioms with Lean/Mathlib"""
+    import shutil
+    import subprocess
+    if getattr(ctx, '_lean_done', False):
+        return
+    ctx._lean_done = True
+    src = os.path.join(ROOT, 'lean', 'PyInt.lean')
+    lean = shutil.which('lean')
+    t0 = time.time()
+    if lean is None or not os.path.exists(src):
+        ctx.notes.append('lean not available: int-theory lemmas not re-checked in this run')
+        return
+    try:
+        p = subprocess.run([lean, src], capture_output=True, text=True, timeout=1500, cwd=os.path.dirname(src))
+        ok = p.returncode == 0 and 'error' not in (p.stdout + p.stderr)
+        detail = None if ok else (p.stdout + p.stderr)[-600:]
+    except subprocess.TimeoutExpired:
+        ok, detail = False, 'lean timed out'
+    ctx.obligation('int-theory lemmas (lean/PyInt.lean)', 'pyvc.theory ground axioms / engine rewrites',
+                   'proved' if ok else 'undecided', 'lean4+mathlib', time.time() - t0, detail=detail)
+
+
 def run_contracts(ctx, contracts, contracts_module):
     """contracts: list of Contract instances (already registered)."""
+    if ctx.tier == 'thorough':
+        lean_lemmas(ctx)
     lock = load_lock()
     t0 = time.time()
     total_concrete = 0
